@@ -96,7 +96,8 @@ def c01(tier):
     us.append(twin(us[0]))
     us.append(twin(us[-2]))
     sp = U("split", "split", "split", dict(maxlen=4 if tier == "quick" else 6), timeout=60 if tier == "quick" else 600)
-    return us + [sp, twin(sp)]
+    st = stmt_units(tier)
+    return us + [sp, twin(sp)] + st + [twin(st[0]), twin(st[-1])]
 
 
 RDF_FUNCS = ["pyjelly/integrations/rdflib/serialize.py:*", "pyjelly/integrations/rdflib/parse.py:*", "pyjelly/serialize/streams.py:*", "pyjelly/serialize/encode.py:*", "pyjelly/parse/decode.py:*"]
@@ -547,3 +548,46 @@ def c12(tier):
         if tier != "quick":
             us.append(U(f"interleave3:{integ}", "interleave", "interleave", dict(integ=integ, workloads=[["ser", "A"], ["parse", "B"], ["ser", "C"]], steps=10), timeout=1800))
     return us + [twin(us[0])]
+
+
+def stmt_units(tier):
+    """L-STMT work units: singles (one table-using term per statement) and, thorough only, pairs."""
+    import importlib
+    m = importlib.import_module("vpkg.harness.stmt")
+    out = []
+
+    def mk(kinds, tn, tp, td, timeout=300):
+        tables = {"name": tn, "prefix": tp, "datatype": td}
+        m.P = {"tables": tables}
+        tag = "stmt:" + "|".join(kinds) + f":n{tn['n']}.{tn['m']}:p{tp['n']}.{tp['m']}.{tp.get('e', 0)}:d{td['n']}.{td['m']}"
+        out.append(U(tag, "stmt", "stmt", dict(kinds=kinds, tables=tables, nchoices=m.count_choices(kinds)), timeout=timeout, no_sample=True))
+
+    names = [dict(n=2, m=0), dict(n=2, m=1), dict(n=2, m=2), dict(n=3, m=3)]
+    prefs = [dict(n=0, m=0, e=0), dict(n=2, m=1, e=0), dict(n=2, m=2, e=1), dict(n=2, m=2, e=0), dict(n=3, m=3, e=2)]
+    dts = [dict(n=2, m=1), dict(n=2, m=2), dict(n=1, m=1)]
+    if tier != "quick":
+        names += [dict(n=3, m=2), dict(n=4, m=4)]
+        prefs += [dict(n=1, m=1, e=0), dict(n=1, m=1, e=1), dict(n=3, m=2, e=0), dict(n=4, m=4, e=1)]
+        dts += [dict(n=3, m=3), dict(n=3, m=2)]
+    d0 = dict(n=1, m=0)
+    for tn in names:
+        for tp in prefs:
+            if tier == "quick" and tn["n"] == 3 and tp["n"] == 3:
+                continue
+            mk(["iri", "bnode", "lit"], tn, tp, d0, 600)
+    for td in dts:
+        mk(["bnode", "bnode", "tlit"], dict(n=2, m=0), dict(n=2, m=0, e=0), td)
+        mk(["bnode", "bnode", "lit", "tlit"], dict(n=2, m=0), dict(n=0, m=0, e=0), td)
+    mk(["bnode", "bnode", "lit", "iri"], dict(n=2, m=2), dict(n=2, m=2, e=0), d0)
+    mk(["bnode", "bnode", "lit", "default"], dict(n=2, m=2), dict(n=2, m=2, e=0), d0)
+    mk(["qt:iri,bnode,tlit", "bnode", "lit"], dict(n=2, m=2), dict(n=2, m=1, e=0), dict(n=2, m=2), 900)
+    # two typed literals in one statement (deferred resolution on the datatype table)
+    mk(["bnode", "bnode", "tlit", "tlit"], dict(n=2, m=0), dict(n=0, m=0, e=0), dict(n=2, m=2), 900)
+    mk(["bnode", "bnode", "tlit", "tlit"], dict(n=2, m=0), dict(n=0, m=0, e=0), dict(n=2, m=1), 900)
+    mk(["tlit", "bnode", "tlit"], dict(n=2, m=0), dict(n=0, m=0, e=0), dict(n=3, m=3), 900)
+    if tier != "quick":
+        for tp in (dict(n=2, m=2, e=0), dict(n=2, m=2, e=1), dict(n=2, m=1, e=0), dict(n=0, m=0, e=0)):
+            for tn in (dict(n=2, m=2), dict(n=2, m=1)):
+                mk(["iri", "iri", "lit"], tn, tp, d0, 1800)
+        mk(["iri", "bnode", "qt:bnode,iri,lit"], dict(n=2, m=2), dict(n=2, m=2, e=0), d0, 1800)
+    return out
